@@ -21,6 +21,7 @@ from .zoneinfo import timezone_name
 
 URI_META = re.compile(r'([\\`\u0080-\uffff])')
 STR_META = re.compile(r'([\\"\$\u0080-\uffff])')
+CTRL_META = re.compile(r'([\x00-\x1f])')
 
 
 def str_sub(match):
@@ -31,6 +32,10 @@ def str_sub(match):
         return '\\u%04x' % o
     elif c in '\\"$':
         return '\\%s' % c
+
+
+def ctrl_sub(match):
+    return '\\u%04x' % ord(match.group(0))
 
 
 def uri_sub(match):
@@ -163,6 +168,8 @@ def dump_str(str_value, version=LATEST_VER):
     # Replace other escapes.
     for orig, esc in STR_SUB:
         str_value = str_value.replace(orig, esc)
+    # Remaining control characters have no short escape.
+    str_value = CTRL_META.sub(ctrl_sub, str_value)
     return '"%s"' % str_value
 
 
@@ -172,6 +179,8 @@ def dump_uri(uri_value, version=LATEST_VER):
     # Replace other escapes.
     for orig, esc in STR_SUB:
         uri_value = uri_value.replace(orig, esc)
+    # Remaining control characters have no short escape.
+    uri_value = CTRL_META.sub(ctrl_sub, uri_value)
     return '`%s`' % uri_value
 
 
